@@ -550,7 +550,8 @@ ExecGosub(st, s) ==
 \* RETURN continues after the most recent pending GOSUB (of this activation)
 ExecReturn(st, s) ==
   IF st.gs = <<>> THEN Raise(st, s.id, 3)
-  ELSE IF BarrierAt(Last(st.gs), Len(Last(st.gs))) # BarrierAt(st.k, Len(st.k)) THEN Skip(st)
+  \* the pending GOSUBs belong to other activations (the callers): for this one there is none
+  ELSE IF BarrierAt(Last(st.gs), Len(Last(st.gs))) # BarrierAt(st.k, Len(st.k)) THEN Raise(st, s.id, 3)
   ELSE IF Has(s, "l") /\ s.l # "" THEN
     LET kk == GotoK(Last(st.gs), s.l) IN
     IF kk = <<>> THEN Skip(st) ELSE [st EXCEPT !.k = kk, !.gs = Front(@)]
